@@ -185,7 +185,10 @@ class EmitV3(V3Unit):
             secp = rfc.usm_params(E, B, Tm, b"", b"", b"", FA)
         reply = rfc.v3_message(reply_msgid, ctx.fresh_int("agent_max_size"), 0, 3,
                                secp,
-                               rfc.scoped_pdu(E, b"", rfc.pdu(rfc.REPORT, ctx.fresh_int("report_rid"), 0, 0, report_vbs, FA), FA), FA)
+                               # (the report's contextEngineID is whatever the agent puts there - it may echo the probe's
+                               #  empty one, RFC 3412 7.1 3c; the engine to talk to is msgAuthoritativeEngineID)
+                               rfc.scoped_pdu(ctx.fresh_bytes("report_context_engine_id"), ctx.fresh_bytes("report_context_name"),
+                                              rfc.pdu(rfc.REPORT, ctx.fresh_int("report_rid"), 0, 0, report_vbs, FA), FA), FA)
         ctx.assume(And(SInt(z3.Int("report_flags!0")) >= 0, SInt(z3.Int("report_flags!0")) < 4) if False else True)
 
         def sender(i, a, k):
@@ -243,8 +246,10 @@ class EmitV3(V3Unit):
             args, vals = [PDict(list(zip(oids, values)))], [WVal(v) for v in values]
         elif self.op == "bulkget":
             args, vals = [[], list(oids)], [None] * self.k
-            f1, f2 = 0, 7
-            kwargs = {"max_list_size": 7}
+            mrep = ctx.fresh_int("max_repetitions")       # whatever the caller says, 0 included
+            ctx.assume(mrep >= 0)
+            f1, f2 = 0, mrep
+            kwargs = {"max_list_size": mrep}
         else:
             args, vals = [list(oids)], [None] * self.k
         exc = None
@@ -555,12 +560,13 @@ class ReceiveV3(V3Unit):
     label = "proved-shape-bounded(binding list of the enumerated length; every leaf symbolic)"
     target = "puresnmp_plugins.mpm.v3:V3MPM.decode"
 
-    def __init__(self, level, encrypted, k, mode, pdu_tag=rfc.RESPONSE, after_discovery=False):
+    def __init__(self, level, encrypted, k, mode, pdu_tag=rfc.RESPONSE, after_discovery=False, padded=False):
         """mode: 'any' (arbitrary incoming message: C09/C06/C08/C11) or 'authentic-minimal' (C10: what a conformant
         peer produces for this user at this level, minimal BER); pdu_tag: a response or a Report; after_discovery: the
         message processor has completed a discovery (and sent a request) before, so it holds engine timing state"""
         self.level, self.encrypted, self.k, self.mode = level, encrypted, k, mode
         self.pdu_tag, self.after_discovery = pdu_tag, after_discovery
+        self.padded = padded      # the peer padded the scoped PDU to the cipher's block size (RFC 3414 8.1.1.2): octets behind it
         self.functions = (self.target, "puresnmp.adt:Message.decode", "puresnmp.adt:Message.from_sequence",
                           "puresnmp.adt:V3Flags.decode", "puresnmp.adt:Message.__bytes__", "puresnmp.adt:ScopedPDU.decode",
                           "puresnmp_plugins.security.usm:UserSecurityModel.process_incoming_message",
@@ -579,9 +585,12 @@ class ReceiveV3(V3Unit):
             self.props = ("C06", "C08", "C20") + (("C09",) if hashname else ()) + (("C11",) if priv and encrypted else ())
         self.name = "v3 %s incoming[%s %s, %d bindings, %s%s]" % (
             level, "encrypted" if encrypted else "plain", "Report" if pdu_tag == rfc.REPORT else "response", k, mode,
-            ", after a discovery with other boots/time" if after_discovery else "")
+            (", after a discovery with other boots/time" if after_discovery else "") + (", plaintext padded by the peer" if padded else ""))
 
     def decrypt_model(self, interp, a):
+        if self.padded:
+            from pyvc.wire import normalise, WLit
+            return normalise(WCat([self.plain_scoped, WLit(b"\x05\x00")]))
         return self.plain_scoped
 
     def run(self, interp):
@@ -698,6 +707,9 @@ class ReceiveV3(V3Unit):
                                "(verified from the x690 source by the EncodeLength unit; 127 is finding D9)")
             chk(("C10", "C06"), T, "ensures", "an-authentic-minimal-BER-response-of-the-users-level-is-accepted", exc is None,
                 known=lens127, finding="D9")
+            if use_priv and not (hashname and lens127 is not None and False):
+                # C11: ... and the encrypted response round-trips (padding behind the scoped PDU is ignored, RFC 3414 8.1.1.2)
+                chk(("C11",), T, "ensures", "an-authentic-encrypted-response-is-decrypted-and-accepted", exc is None or exc.cls.name == "AuthenticationError")
             if exc is None:
                 vbs = content.fields.get("varbinds") if isinstance(content, Obj) else None
                 chk(("C10", "C11", "C06"), T, "ensures", "and-decoded-to-the-bindings-sent",
@@ -949,6 +961,7 @@ def units_rx(tier):
             us.append(ReceiveV3(lv, enc, 1, "any"))
         us.append(ReceiveV3(lv, priv, 1, "authentic-minimal"))
     us.append(ReceiveV3("authPriv-md5", True, 2, "any"))
+    us.append(ReceiveV3("authPriv-sha1", True, 1, "authentic-minimal", padded=True))
     us.append(ReceiveV3("authNoPriv-sha1", False, 0, "any"))
     us.append(ReceiveV3("noAuthNoPriv", False, 1, "any-error"))
     us.append(ReceiveV3("authNoPriv-md5", False, 1, "any-error"))
